@@ -19,6 +19,27 @@ pub fn nokey() -> Value {
     json!(["nil", 0])
 }
 
+/// canonical JSON text of a value (object keys sorted): compared as opaque text by TLC
+pub fn canon(v: &Value) -> String {
+    fn sort(v: &Value) -> Value {
+        match v {
+            Value::Object(m) => {
+                // "$params" is a cache of the evaluated act params, refilled on demand: not state
+                let mut keys: Vec<&String> = m.keys().filter(|k| k.as_str() != "$params").collect();
+                keys.sort();
+                let mut out = serde_json::Map::new();
+                for k in keys {
+                    out.insert(k.clone(), sort(&m[k]));
+                }
+                Value::Object(out)
+            }
+            Value::Array(a) => Value::Array(a.iter().map(sort).collect()),
+            _ => v.clone(),
+        }
+    }
+    sort(v).to_string()
+}
+
 #[derive(Clone, Debug)]
 pub struct Cfg {
     pub keep: bool,
@@ -60,6 +81,8 @@ pub struct World {
     pub stuck: bool,
     /// currently re-executing an already recorded prefix
     pub prefix: bool,
+    /// the tasks of the (single) process when it was last seen in the cache
+    pub last_tasks: Vec<(Key, String, String, String)>,
 }
 
 /// wait until nothing is in flight; false if the engine does not get there within a few seconds
@@ -158,6 +181,7 @@ impl World {
             recv: Vec::new(),
             stuck: false,
             prefix: false,
+            last_tasks: Vec::new(),
         }
     }
 
@@ -271,6 +295,9 @@ impl World {
                     "prev": if prev == "nil" { nokey() } else { self.key_of(pid, prev) },
                     "seq": i + 1,
                     "err": match &t["err"] { Value::Object(e) => e["ecode"].clone(), _ => json!("nil") },
+                    "data": canon(data),
+                    "hasStart": st != 0,
+                    "hasEnd": t["end_time"].as_i64().unwrap_or(0) != 0,
                     "emitOff": flag("$emit_disabled"),
                     "catchDone": flag("$is_catch_processed"),
                     "hookAct": flag("$is_event_processed"),
@@ -287,17 +314,45 @@ impl World {
                     "cached": true,
                     "ps": p["state"],
                     "perr": match &p["err"] { Value::Object(e) => e["ecode"].clone(), _ => json!("nil") },
+                    "env": canon(&p["env"]),
                     "tasks": tasks,
                     "q": q,
                 }),
             );
+        }
+        // the store's image of every process (C11, C17): proc row and task rows
+        let store = verif::store(&self.engine);
+        let mut rows = BTreeMap::new();
+        for pid in &self.pids {
+            let prow = match store.procs().find(pid) {
+                Ok(p) => json!({"exists": true, "ps": p.state,
+                    "perr": match &p.err { Some(e) => serde_json::from_str::<Value>(e).ok().and_then(|v| v.get("ecode").cloned()).unwrap_or(json!("?")), None => json!("nil") },
+                    "env": canon(&serde_json::from_str::<Value>(&p.env).unwrap_or(Value::Null))}),
+                Err(_) => json!({"exists": false, "ps": "nil", "perr": "nil", "env": "nil"}),
+            };
+            let q = acts::query::Query::new().push(acts::query::Cond::and().push(acts::query::Expr::eq("pid", pid.clone())));
+            let mut trows = Vec::new();
+            if let Ok(page) = store.tasks().query(&q) {
+                for t in page.rows {
+                    trows.push(json!({
+                        "k": self.key_of(pid, &t.tid),
+                        "st": t.state,
+                        "prev": match &t.prev { Some(p) => self.key_of(pid, p), None => nokey() },
+                        "err": match &t.err { Some(e) => serde_json::from_str::<Value>(e).ok().and_then(|v| v.get("ecode").cloned()).unwrap_or(json!("?")), None => json!("nil") },
+                        "data": canon(&serde_json::from_str::<Value>(&t.data).unwrap_or(Value::Null)),
+                        "hasStart": t.start_time != 0,
+                        "hasEnd": t.end_time != 0,
+                    }));
+                }
+            }
+            rows.insert(pid.clone(), json!({"proc": prow, "tasks": trows}));
         }
         let jobs: Vec<Value> = verif::jobs_list()
             .iter()
             .filter(|(k, _, _)| !k.starts_with("dispatch:"))
             .map(|(k, a, b)| json!({"kind": k, "pid": a, "tid": b}))
             .collect();
-        json!({"procs": procs, "jobs": jobs, "now": (verif::clock_now() - CLOCK_BASE) / 1000})
+        json!({"procs": procs, "jobs": jobs, "now": (verif::clock_now() - CLOCK_BASE) / 1000, "rows": rows})
     }
 
     /// deliver every parked dispatch in generation order
@@ -337,11 +392,16 @@ impl World {
         step["others"] = json!(others);
         step["post"] = self.post();
         self.lines.push(step);
+        if let Some(pid) = self.pids.first().cloned() {
+            if verif::dump_proc(&self.engine, &pid).is_some() {
+                self.last_tasks = self.live_tasks(&pid);
+            }
+        }
     }
 
     pub fn model_line(&mut self, name: &str, tree: Value, inputs: &Value, extra: Value) {
         self.lines.push(json!({"ev": "model", "name": name, "model": self.model, "tree": tree,
-            "inputs": inputs, "cfg": {"keep": self.cfg.keep, "cap": self.cfg.cap}, "x": extra}));
+            "inputs": inputs, "keep": self.cfg.keep, "cfg": {"keep": self.cfg.keep, "cap": self.cfg.cap}, "x": extra}));
     }
 
     // ------------------------------------------------------------------ spec actions
@@ -423,6 +483,20 @@ impl World {
         ok
     }
 
+    /// drop the process from the cache (the next access reloads it from the store)
+    pub async fn evict(&mut self, pid: &str) {
+        verif::evict(&self.engine, pid);
+        self.record(json!({"a": "Evict", "pid": pid, "res": "ok"})).await;
+    }
+
+    /// the process has left cache and store (finished without keep_processes)
+    pub fn gone(&self, pid: &str) -> bool {
+        !self.cfg.keep
+            && !self.last_tasks.is_empty()
+            && verif::dump_proc(&self.engine, pid).is_none()
+            && verif::store(&self.engine).procs().find(pid).is_err()
+    }
+
     /// one tick of the engine's interval task, now
     pub async fn tick(&mut self) {
         verif::tick(&self.engine);
@@ -452,6 +526,14 @@ impl World {
 
     /// live tasks: (key, kind, state, uses)
     pub fn tasks(&self, pid: &str) -> Vec<(Key, String, String, String)> {
+        // an evicted process is not in the cache: what it was when it left is what it is
+        if verif::dump_proc(&self.engine, pid).is_none() {
+            return self.last_tasks.clone();
+        }
+        self.live_tasks(pid)
+    }
+
+    fn live_tasks(&self, pid: &str) -> Vec<(Key, String, String, String)> {
         let mut out = Vec::new();
         if let Some(p) = verif::dump_proc(&self.engine, pid) {
             for t in p["tasks"].as_array().unwrap() {
